@@ -342,3 +342,52 @@ func vpC07Injective(small bool) {
 
 func VP_C07_SignBytesInjective_small() { vpC07Injective(true) }
 func VP_C07_SignBytesInjective_full()  { vpC07Injective(false) }
+
+// C07-H1d: repeated signers.  Every slot is a genuine for-block signature by one of the m trusted
+// members (so the same member may sign several slots, in any positions); accepted only if the
+// *distinct* signers reach the trust level.
+func vpC07Repeat(n, m int) {
+	vp.Opt("prefer_int", vpPreferInt)
+	keys := make([]ed25519.PrivKey, m)
+	for i := range keys {
+		keys[i] = vpKey(i)
+	}
+	tpowers := vpPowers(m)
+	trusted := vpValSetRaw(keys, tpowers)
+	bid := vpBlockID(0xAA)
+	commit := &Commit{Height: vpHeight, Round: vpRound, BlockID: bid, Signatures: make([]CommitSig, n)}
+	signer := make([]int, n)
+	for i := 0; i < n; i++ {
+		w := vp.Choice("signer", m)
+		signer[i] = w
+		cs := &commit.Signatures[i]
+		cs.BlockIDFlag = BlockIDFlagCommit
+		cs.Timestamp = vpTime(1000 + int64(i))
+		cs.ValidatorAddress = keys[w].PubKey().Address()
+		cs.Signature = vpSignMaybe(keys[w], vpPrecommitSignBytes(vpChainID, tmproto.PrecommitType, vpHeight, vpRound, bid, cs.Timestamp), true)
+	}
+	levels := []tmmath.Fraction{{Numerator: 1, Denominator: 3}, {Numerator: 2, Denominator: 3}}
+	lvl := levels[vp.Choice("trust-level", len(levels))]
+	err := trusted.VerifyCommitLightTrusting(vpChainID, commit, lvl)
+	if err != nil {
+		vp.Reach("rejected")
+		return
+	}
+	vp.Reach("accepted")
+	var total, good uint64
+	seen := map[int]bool{}
+	for j := 0; j < m; j++ {
+		total += uint64(tpowers[j])
+	}
+	for i := 0; i < n; i++ {
+		if !seen[signer[i]] {
+			seen[signer[i]] = true
+			good += uint64(tpowers[signer[i]])
+		}
+	}
+	vp.Assert(uint64(lvl.Denominator)*good > uint64(lvl.Numerator)*total, "C07.trusting.repeated-signers-count-once")
+}
+
+func VP_C07_Repeat_n2_m2() { vpC07Repeat(2, 2) }
+func VP_C07_Repeat_n3_m2() { vpC07Repeat(3, 2) }
+func VP_C07_Repeat_n4_m3() { vpC07Repeat(4, 3) }
